@@ -20,6 +20,7 @@ type Pipe struct {
 	readErr error
 	open    bool
 	waiters int // readers blocked in Read
+	waitersAt map[int]int // ... by the epoch in which the read was issued
 	epoch   int // incremented by Close: a Read blocked across a Close fails, as on a socket
 
 	// Behaviour switches (read under mu).
@@ -44,7 +45,7 @@ type Pipe struct {
 }
 
 func New() *Pipe {
-	p := &Pipe{CloseEndsRead: true}
+	p := &Pipe{CloseEndsRead: true, waitersAt: map[int]int{}}
 	p.cond = sync.NewCond(&p.mu)
 	return p
 }
@@ -113,7 +114,9 @@ func (p *Pipe) Read(b []byte) (int, error) {
 	epoch := p.epoch
 	for len(p.buf) == 0 && !p.eof && p.readErr == nil && (p.epoch == epoch || !p.CloseEndsRead) {
 		p.waiters++
+		p.waitersAt[epoch]++
 		p.cond.Wait()
+		p.waitersAt[epoch]--
 		p.waiters--
 	}
 	if p.epoch != epoch && p.CloseEndsRead {
@@ -194,6 +197,10 @@ func (p *Pipe) SetCloseErr(err error) { p.mu.Lock(); p.CloseErr = err; p.mu.Unlo
 func (p *Pipe) OpenOKCount() int { p.mu.Lock(); defer p.mu.Unlock(); return p.OpenOK }
 
 // Waiters is the number of goroutines blocked in Read.
+// WaitersCurrent is the number of reads blocked right now that were issued after the last Open (a read blocked across a
+// Close is about to fail and does not count).
+func (p *Pipe) WaitersCurrent() int { p.mu.Lock(); defer p.mu.Unlock(); return p.waitersAt[p.epoch] }
+
 func (p *Pipe) Waiters() int { p.mu.Lock(); defer p.mu.Unlock(); return p.waiters }
 
 // Pending is the number of inbound bytes not yet read.
